@@ -1267,7 +1267,13 @@ def reduction(
         if has_keyword(aggregate_func, "keepdims"):
             extra_agg_kwargs["keepdims"] = True
         result = map_blocks(
-            partial(aggregate_func, **extra_agg_kwargs, **(extra_func_kwargs or {})),
+            partial(
+                _aggregate_and_cast,
+                aggregate_func=partial(
+                    aggregate_func, **extra_agg_kwargs, **(extra_func_kwargs or {})
+                ),
+                astype_dtype=dtype,
+            ),
             result,
             dtype=dtype,
         )
@@ -1282,6 +1288,13 @@ def reduction(
     result = astype(result, dtype, copy=False)
 
     return result
+
+
+def _aggregate_and_cast(a, aggregate_func=None, astype_dtype=None):
+    # Aggregate functions work on wider intermediate dtypes. Storage would cast the block
+    # to the declared dtype on write, but an operation fused with this one sees the block
+    # directly, so cast it here to get the same values with and without fusion.
+    return nxp.astype(aggregate_func(a), astype_dtype, copy=False)
 
 
 def _normalize_split_every(split_every, axis):
